@@ -1006,6 +1006,7 @@ func (p *platform) genShared() []*itemSpec {
 		ds   types.DataSource
 	}
 	var srcs []src
+	var inputs [][]byte // the bytes (before conversion) measured so far
 	n := pick(2, 2, 3, 3, 4, 5, 6)
 	for i := 0; i < n; i++ {
 		pi := pick[uint8](0, 0, 1)
@@ -1019,9 +1020,26 @@ func (p *platform) genShared() []*itemSpec {
 			if ctx.Rng.Intn(4) > 0 {
 				d.conv = pick(algs...)
 			}
+			if len(inputs) > 0 && ctx.Rng.Intn(3) == 0 {
+				// nearly the bytes an earlier measurement of this flow handed to the shared objects: the
+				// same length, one byte (the first, the last, any) different -- or the very same bytes
+				// in another array.  An object that remembers anything of its last input (its
+				// length, its first bytes, its address) must still tell the two apart.
+				b := append([]byte{}, inputs[ctx.Rng.Intn(len(inputs))]...)
+				if len(b) > 0 && ctx.Rng.Intn(6) > 0 {
+					pos := pick(0, len(b)-1, len(b)-1, ctx.Rng.Intn(len(b)), ctx.Rng.Intn(len(b)))
+					b[pos] ^= byte(1 << uint(ctx.Rng.Intn(8)))
+				}
+				a := &artifact{kind: 0, content: b, real: types.RawBytes(b)}
+				d.refs = []refSpec{{art: a, ranges: [][2]uint64{{0, uint64(len(b))}}}}
+			}
+			d.obj = nil
 			if d.conv != 0 {
 				d.obj = own[d.conv]
 				d.obj.uses++
+			}
+			if raw, ok := rawOf(d); ok {
+				inputs = append(inputs, raw.b)
 			}
 			sp, ds = srcSpec{data: d}, staticData(d)
 			srcs = append(srcs, src{sp, ds})
@@ -1786,6 +1804,13 @@ func judge(r *runResult) {
 
 	// failures of the digest clause are reported ahead of their consequences (a wrong recorded digest
 	// also breaks the fold, the re-executions and the replays)
+	var keptFails []fail // about the earlier boots of the session: reported after what concerns this boot
+	expectKept := func(ok bool, what, site string) {
+		checks++
+		if !ok {
+			keptFails = append(keptFails, fail{"", what, site})
+		}
+	}
 	var digestFails []fail
 	expectDigest := func(ok bool, what, site string) {
 		checks++
@@ -1912,7 +1937,7 @@ func judge(r *runResult) {
 				same, first = false, i
 			}
 		}
-		expect(same, fmt.Sprintf("the command list kept from boot %d of this TPM object (CommandLog.Commands() read when that boot ended) no longer carries the digests it carried then: command %d changed after the later boots, which used converter / data-source objects that boot had used", k.boot, first),
+		expectKept(same, fmt.Sprintf("the command list kept from boot %d of this TPM object (CommandLog.Commands() read when that boot ended) no longer carries the digests it carried then: command %d changed after the later boots, which used converter / data-source objects that boot had used", k.boot, first),
 			"pkg/bootflow/dataconverters/hasher.go:Convert / pkg/bootflow/types/data.go:ConvertedBytes / pkg/bootflow/subsystems/trustchains/tpm/command_extend.go (a recorded digest must be a value of its own)")
 	}
 	var measLits []string
@@ -1928,7 +1953,12 @@ func judge(r *runResult) {
 			measLits = append(measLits, "((-1), 0)")
 			continue
 		}
-		measBytes[i], measRead[i] = cb, true
+		// the value as returned (a copy: what the property speaks about is the digests the TPM recorded,
+		// judged below on the logs themselves, not how long a caller may hold this slice)
+		measBytes[i], measRead[i] = append([]byte(nil), cb...), true
+		if cb == nil {
+			measBytes[i] = nil
+		}
 		h := uint64(0)
 		for _, x := range cb {
 			h = gal.DStep(h, uint64(x))
@@ -2442,7 +2472,7 @@ func judge(r *runResult) {
 	if wf && started && len(t.EventLog) >= 6 {
 		ctx.Count("wf with >=3 logged measurements")
 	}
-	fails = append(digestFails, fails...)
+	fails = append(append(digestFails, fails...), keptFails...)
 	for i := 0; i < checks-len(fails); i++ {
 		ctx.OracleOK()
 	}
@@ -2533,11 +2563,16 @@ func main() {
 		return pick(reuseReset, reuseReset, reuseReset, reuseNoInitAlgs, reuseNoInitAlgs, reuseNoInit)
 	}
 	again := func(boot int) bool { return boot < 2 && ctx.Rng.Intn(100) < 30 }
+	// first a few single boots whose measurements hold the same converter / data-source objects (the
+	// shortest flows of that kind: a failure there is the easiest to read), then the mix
+	nSharedFirst := ctx.Scale(12, 60)
 	for i := 0; i < nWF; {
 		p := mkPlat()
 		for boot := 0; i < nWF; boot++ {
 			var r *runResult
 			switch {
+			case i < nSharedFirst:
+				r = runGenerated("shared-objects", p, p.genShared())
 			case ctx.Rng.Intn(5) == 0:
 				r = runGenerated("logged-gen", p, p.genLogged())
 			case ctx.Rng.Intn(5) == 0:
@@ -2549,7 +2584,7 @@ func main() {
 			}
 			judge(r)
 			i++
-			if !again(boot) {
+			if i <= nSharedFirst || !again(boot) {
 				break
 			}
 			p.recycle(nextReuse(), r.descr())
